@@ -98,13 +98,18 @@ def run(check: Check) -> None:
                 if bad:
                     check.violation(f"kind-change::{var}->categorical::{bad.split(':', 1)[0]}", bad, p)
             # --- unseen levels: never add / remove / rename columns, warn, other cells unchanged
-            for var in sorted(uses & {"A", "B"}):
+            for var, via_subset in itertools.product(sorted(uses & {"A", "B"}), (False, True)):
                 lv = {"A": mc.A_ROWS, "B": mc.B_ROWS}[var]
                 rows2 = list(lv)
                 rows2[1] = "NEW"
                 rows2[4] = "NEW"
+                # the recorded spec itself, or the spec narrowed with .subset() to (all of) its own terms: a derived spec pins the levels too
+                spec_used = spec.subset([t for t in spec.formula if repr(t) != "1"] or list(spec.formula)) if via_subset else spec
+                if via_subset and list(spec_used.column_names) != [c for c in labels0 if c != "Intercept"] and list(spec_used.column_names) != labels0:
+                    continue  # (dropping the intercept changed the rank structure of this formula: not the same columns to compare)
+                labels_used = list(spec_used.column_names)
 
-                def fn(var=var, rows2=rows2):
+                def fn(var=var, rows2=rows2, spec=spec_used):
                     a, b = sym_vector("a", n), sym_vector("b", n)
                     d2 = mc.cat_frame()
                     d2[var] = pandas.Categorical(rows2)
@@ -117,7 +122,7 @@ def run(check: Check) -> None:
                         nw1 = len([x for x in w if issubclass(x.category, DataMismatchWarning)])
                     return ref, got, nw0, nw1
 
-                def claims(res, var=var, out=out):
+                def claims(res, var=var, out=out, labels0=labels_used):
                     ref, got, nw0, nw1 = res
                     lr, cr = mc.matrix_cells(ref, out)
                     lg, cg = mc.matrix_cells(got, out)
@@ -130,13 +135,13 @@ def run(check: Check) -> None:
                         touched = [j for j, l in enumerate(lg) if f"{var}[" in l]
                         yield "unseen level: its rows carry zeros in that factor's columns", conj([same_cell(cg[i, j], 0) for i in (1, 4) for j in touched])
 
-                def rep(model, label, var=var, formula=formula, out=out):
-                    p = {"kind": "c09_unseen", "formula": formula, "output": out, "var": var}
+                def rep(model, label, var=var, formula=formula, out=out, via_subset=via_subset):
+                    p = {"kind": "c09_unseen", "formula": formula, "output": out, "var": var, "via_subset": via_subset}
                     bad = replays.run(p)
                     return (f"unseen-level::{var}", bad, p) if bad else None
 
                 rig.run_sym(check, "unseen_levels", fn, claims, replay=rep, timeout_ms=tmo,
-                            on_exception=lambda e, pc: [(f"unseen level raised {type(e).__name__} instead of warning", False)], case_id=f"{formula}:{out}:{var} gains a level",
+                            on_exception=lambda e, pc: [(f"unseen level raised {type(e).__name__} instead of warning", False)], case_id=f"{formula}:{out}:{var} gains a level{' (subset spec)' if via_subset else ''}",
                             sample={"formula": formula, "follow_up": f"{var} gains level 'NEW' in rows 1 and 4; a, b symbolic"})
             # --- the follow-up frame DECLARES other categories than were recorded (another order; extra levels that no row holds;
             #     extra levels some rows hold): the recorded levels, in recorded order, decide the columns - nothing is renamed,
